@@ -7,6 +7,7 @@ from .types import PT, INT, BOOL, EXT, NONE, STR, Opt, Seq, Set, Arr, Map, Tup
 from .values import (
     SV,
     ObjRef,
+    View,
     EnumVal,
     EnumClass,
     RecordClass,
@@ -440,7 +441,7 @@ class ExprMixin:
             if base.pt.kind == "ref" and attr != "traverse" and not self.E.registry.by_method.get((base.pt.name, attr)):
                 raise Unsupported(f"unmodelled attribute .{attr} of a {base.pt.name} (line {self.cur_line})")
             return BoundMethod(base, attr)
-        if isinstance(base, (list, tuple, dict, int)):
+        if isinstance(base, (list, tuple, dict, int, View)):
             return BoundMethod(base, attr)
         raise Unsupported(f"attribute {attr} of {base!r}")
 
@@ -474,6 +475,10 @@ class ExprMixin:
                     raise Unsupported("missing constant key")
                 return base[idx]
             raise Unsupported("symbolic key into a concrete dict")
+        if isinstance(base, View):
+            return View(base.obj, base.keys + (idx,))
+        if isinstance(base, ObjRef) and base.cls in getattr(self.E, "view_classes", ()):
+            return View(base, (idx,))
         if isinstance(base, ObjRef):
             return self.call_method(base, "__getitem__", [idx], {}, st)
         if isinstance(base, SV):
